@@ -677,6 +677,57 @@ def claim_bcast(ctx, cls, rule="R-CLAIM-BCAST"):
         ctx.violated(rule, f, "%s.notify address-claim branch" % cls, "address-claimed frames are never handed to the controller applications", f.node)
 
 
+def ca_loops(ctx, cls, rule="R-CA-LOOPS"):
+    """loops over the stack's CAs in notify consult / serve EVERY CA: the destination filter rejects only after the loop
+    is exhausted, and a dispatch loop is not left after the first CA it served"""
+    P = ctx.prog
+    f = P.func(cls, "notify")
+    dest = _dest_of(None)
+    handlers = {"_process_addressclaim", "_process_request"}
+    all_handlers = handlers | {"_process_tp_cm", "_process_tp_dt", "_process_multi_pg", "__notify_subscribers"}
+    seen = {}
+    bad = {}
+    for r in runs(ctx, f, unroll=2):
+        fors = [(j, rec) for j, rec in enumerate(r.recs) if rec.ev.kind == "for"]
+        # for-nodes over self._cas entered on this run
+        over = {}
+        for j, rec in fors:
+            if rec.ev.pol != "iter":
+                continue
+            it = r.recs[j].ev.node.iter
+            if isinstance(it, ast.Attribute) and it.attr == "_cas" and isinstance(it.value, ast.Name) and it.value.id == "self":
+                over.setdefault(id(rec.ev.node), (rec.ev.node, []))[1].append(j)
+        if not over:
+            continue
+        exhausted = {id(rec.ev.node) for j, rec in fors if rec.ev.pol == "exhaust"}
+        calls = [(i, e) for i, e in r.effects() if e.kind == "call" and mname(e.value) in all_handlers]
+        for nid, (node, its) in over.items():
+            def loop_of(i):
+                prev = [id(rec.ev.node) for j, rec in fors if j < i and rec.ev.pol == "iter" and id(rec.ev.node) in over]
+                return prev[-1] if prev else None
+            inside = [(i, e) for i, e in calls if mname(e.value) in handlers and e.value[1][1][0] == "iter" and loop_of(i) == nid]
+            if inside:
+                role = "dispatch of %s" % mname(inside[0][1].value)
+                key = (node.lineno, role)
+                seen[key] = node
+                if nid not in exhausted and r.term != "raise":
+                    bad.setdefault(key, (inside[0][1].node, "the loop over the stack's CAs is left after the first CA that was served: the other CAs "
+                                         "that accept the destination (all of them for a broadcast) never see the frame"))
+            elif not calls and r.term == "return" and (mk_cmp("==", dest, GLOBAL), True) not in lits(r.guards()):
+                # filter loop on a rejecting run
+                key = (node.lineno, "destination filter")
+                seen[key] = node
+                if nid not in exhausted:
+                    bad.setdefault(key, (node, "the frame is rejected although not every CA was asked: the filter loop is left (break) before a "
+                                         "later CA could accept the destination"))
+    for key, node in sorted(seen.items()):
+        inst = "%s.notify: %s consults every CA" % (cls, key[1])
+        if key in bad:
+            ctx.violated(rule, f, inst, bad[key][1], bad[key][0])
+        else:
+            ctx.holds(rule, inst)
+
+
 def claim_timer(ctx, rule="R-CLAIM-TIMER"):
     from spec import sae
     P = ctx.prog
